@@ -255,6 +255,7 @@ def run(c):
     lines, expect, meta = [], [], []
     viol = []
     hist = {}
+    worst = {}
 
     def P_(sim):
         return sim.particles
@@ -319,6 +320,25 @@ def run(c):
                     okc = okc and abs(g - inv["P"][cc] / inv["M"]) <= 16 * (n + 4) * EPS * Vs[cc]
                 if not okc:
                     viol.append(("diag:com", "reb_simulation_com differs from (sum m, sum m x / sum m, sum m v / sum m) (N=%d)" % n, dict(ps=ps, got=[cm.m, cm.x, cm.y, cm.z, cm.vx, cm.vy, cm.vz])))
+        # c04_energy_frame_shift on the real code: move_to_com() changes the energy by -V.P_int + M_int V^2/2 (V = COM velocity
+        # of all particles, P_int/M_int = momentum/mass of the interacting ones); translations do not matter
+        if n >= 1 and math.fsum(p[0] for p in ps) > 0:
+            Mall = math.fsum(p[0] for p in ps)
+            Vc = [math.fsum(p[0] * p[4 + cc] for p in ps) / Mall for cc in range(3)]
+            nint = n if tp else nar
+            Pint = [math.fsum(p[0] * p[4 + cc] for p in ps[:nint]) for cc in range(3)]
+            Mint = math.fsum(p[0] for p in ps[:nint])
+            sim.move_to_com()
+            e2 = sim.energy()
+            want2 = math.fsum([e, -sum(a * b for a, b in zip(Vc, Pint)), 0.5 * Mint * sum(a * a for a in Vc)])
+            Es2 = math.fsum([abs(0.5 * p[0] * (p[4] ** 2 + p[5] ** 2 + p[6] ** 2)) for p in ps[:nint]]) + abs(e) + abs(off) + 0.5 * Mint * sum(a * a for a in Vc) + sum(abs(a * b) for a, b in zip(Vc, Pint))
+            scx = max([abs(v) for p in ps for v in p[1:4]] + [1e-300])
+            dmin = min([math.sqrt(sum((ps[i][1 + cc] - ps[j][1 + cc]) ** 2 for cc in range(3))) for i in range(n) for j in range(i + 1, n)] + [scx])
+            tol2 = 64 * (n + 4) * EPS * Es2 * (1 + scx / max(dmin, 1e-300))      # pair distances are recomputed from shifted positions
+            worst["diag:frame-shift"] = max(worst.get("diag:frame-shift", 0.0), abs(e2 - want2) / tol2 if tol2 > 0 else 0.0)
+            if not abs(e2 - want2) <= tol2:
+                viol.append(("diag:frame-shift", "energy after move_to_com is %.17g, expected E - V.P + M V^2/2 = %.17g (N=%d N_active=%d type=%d)" % (e2, want2, n, na, tp),
+                             dict(ps=ps, N_active=na, type=tp, G=G, offset=off, before=e, after=e2, want=want2)))
         if case < 2:
             c.sample({"diag": "energy", "N": n, "N_active": na, "type": tp, "E": e})
 
@@ -449,7 +469,6 @@ def run(c):
                 continue
             sel.append(cf)
         cfgs = sel
-    worst = {}
     nsteps = 1500 if c.thorough else 300
     ran = 0
     for ci, cf in enumerate(cfgs):
@@ -538,6 +557,83 @@ def run(c):
             if not (E1 <= dE and E2 <= dE):
                 viol.append(("E:" + tag, "relative energy error of %s outside its class: %.3g (dt), %.3g (dt/2), bound %.1g" % (tag, E1, E2, dE), rep))
     c.cov["integrator_runs"] = ran
+
+    # ======================================================================= search: WHFast primitive by primitive
+    # (what c04_wh_* / c04_dh_* state, asserted on the exported primitives of the real code, one at a time)
+    COORD = {"jacobi": 0, "democraticheliocentric": 1, "whds": 2, "barycentric": 3}
+    prim_hist = {}
+    for case in range(6 * T):
+        rng = c.rng.fork()
+        fam = case % 3
+        m0, bodies, G = gen_system(rng, fam)
+        boost = [rng.normal() for _ in range(3)] + [0.3 * rng.normal() for _ in range(3)]
+        Pin = 2 * math.pi * math.sqrt(bodies[0][1] ** 3 / (G * m0))
+        dtp = Pin / rng.uniform(25, 40)
+        for coords in ("jacobi", "democraticheliocentric", "whds", "barycentric"):
+            cf = dict(integrator="whfast", coordinates=coords, kernel="default", corrector=0, corrector2=0, safe_mode=1)
+            sim = build_sim(rebound, m0, bodies, G, boost, cf, dtp)
+            n = sim.N
+            if clib.reb_integrator_whfast_init(ctypes.byref(sim)):
+                continue
+            clib.reb_integrator_whfast_from_inertial(ctypes.byref(sim))
+            ps0 = raw(sim)
+            inv0 = invariants(ps0, G)
+            # decomposition of L in the coordinates held in p_jh (c04_jacobi_decomposition / c04_dh_decomposition)
+            pj = sim.ri_whfast._p_jh
+            ms = [p[0] for p in ps0]
+            if coords == "jacobi":
+                eta_ = [math.fsum(ms[:i + 1]) for i in range(n)]
+                mu_ = [eta_[n - 1]] + [ms[i] * eta_[i - 1] / eta_[i] for i in range(1, n)]
+            elif coords == "democraticheliocentric":
+                mu_ = [math.fsum(ms)] + ms[1:]
+            else:
+                mu_ = None
+            if mu_ is not None:
+                Lc = [math.fsum(v for i in range(n) for v in (mu_[i] * a_(pj[i]), -mu_[i] * b_(pj[i])))
+                      for a_, b_ in ((lambda q: q.y * q.vz, lambda q: q.z * q.vy), (lambda q: q.z * q.vx, lambda q: q.x * q.vz), (lambda q: q.x * q.vy, lambda q: q.y * q.vx))]
+                dd = norm([a - b for a, b in zip(Lc, inv0["L"])]) / inv0["Lscale"]
+                worst["prim:%s:decomposition" % coords] = max(worst.get("prim:%s:decomposition" % coords, 0.0), dd)
+                if dd > 1e-12:
+                    viol.append(("prim:decomposition:" + coords, "L computed from p_jh (%s coordinates: M RxV + sum mu_i x'_i x v'_i) differs from the inertial L by %.3g" % (coords, dd),
+                                 dict(coords=coords, family=fam, m0=m0, bodies=bodies, G=G, boost=boost)))
+            seq = [("kepler", dtp / 2), ("com", dtp / 2)] + ([("jump", dtp / 2)] if coords in ("democraticheliocentric", "whds") else []) + \
+                  [("interaction", dtp)] + ([("jump", dtp / 2)] if coords in ("democraticheliocentric", "whds") else []) + [("kepler", dtp / 2), ("com", dtp / 2)]
+            prev = inv0
+            for rep_ in range(3):
+                for nm_, tau in seq:
+                    if nm_ == "kepler":
+                        clib.reb_whfast_kepler_step(ctypes.byref(sim), ctypes.c_double(tau))
+                    elif nm_ == "com":
+                        clib.reb_whfast_com_step(ctypes.byref(sim), ctypes.c_double(tau))
+                    elif nm_ == "jump":
+                        clib.reb_whfast_jump_step(ctypes.byref(sim), ctypes.c_double(tau))
+                    else:
+                        clib.reb_integrator_whfast_to_inertial(ctypes.byref(sim))
+                        sim.gravity_ignore = 1 if coords == "jacobi" else (2 if coords in ("democraticheliocentric", "whds") else 0)
+                        clib.reb_simulation_update_acceleration(ctypes.byref(sim))
+                        clib.reb_whfast_interaction_step(ctypes.byref(sim), ctypes.c_double(tau))
+                    clib.reb_integrator_whfast_to_inertial(ctypes.byref(sim))
+                    iv = invariants(raw(sim), G)
+                    dP = norm([a - b for a, b in zip(iv["P"], prev["P"])]) / inv0["Pscale"]
+                    dL = norm([a - b for a, b in zip(iv["L"], prev["L"])]) / inv0["Lscale"]
+                    shift = tau if nm_ == "com" else 0.0
+                    Rs = math.fsum(abs(p[0]) * norm(p[1:4]) for p in raw(sim)) + inv0["Pscale"] * abs(tau)
+                    dR = norm([a - b - pp * shift for a, b, pp in zip(iv["R"], prev["R"], prev["P"])]) / Rs
+                    key = "prim:%s:%s" % (coords, nm_)
+                    prim_hist[key] = prim_hist.get(key, 0) + 1
+                    for q_, v_ in (("dP", dP), ("dL", dL), ("dCOM", dR)):
+                        worst[key + ":" + q_] = max(worst.get(key + ":" + q_, 0.0), v_)
+                    rep = dict(coords=coords, primitive=nm_, tau=tau, family=fam, m0=m0, bodies=bodies, G=G, boost=boost, dP=dP, dL=dL, dCOM=dR)
+                    if dP > 1e-12:
+                        viol.append((key + ":P", "WHFast %s step in %s coordinates changes the total momentum by %.3g" % (nm_, coords, dP), rep))
+                    if dR > 1e-12:
+                        viol.append((key + ":COM", "WHFast %s step in %s coordinates moves the centre of mass by %.3g (expected %s)" % (nm_, coords, dR, "tau*V" if nm_ == "com" else "0"), rep))
+                    if dL > 1e-12:
+                        k_ = "F13:whfast-barycentric-L" if (coords == "barycentric" and dL <= 1e-6) else key + ":L"
+                        viol.append((k_, "WHFast %s step in %s coordinates changes the total angular momentum by %.3g" % (nm_, coords, dL), rep))
+                    prev = iv
+            c.count(("prim", coords, fam, case))
+    c.cov["whfast_primitive_histogram"] = prim_hist
 
     # ======================================================================= search: TRACE pericentre switch, all three peri modes
     # an eccentric planet triggers current_C (pericentre approach); PARTIAL_BS keeps the interaction/jump/kepler sequence
